@@ -64,7 +64,7 @@ def gen_(rng, i, tier):
                     edits.append({"e": "aug", "k": [C.enc(x) for x in k], "v": [rng.choice([-2, 1, 3]), 1]})
                 else:
                     edits.append({"e": "imul", "okind": "scalar", "c": [rng.choice([2, -1, 3]), 1]})
-        return {"op": "method", "kind": kind, "terms": G.jraw(t), "meth": rng.randrange(4), "edits": edits}
+        return {"op": "method", "kind": kind, "terms": G.jraw(t), "meth": rng.randrange(4), "edits": edits, "remap": gen_remap(rng)}
     if r < 0.80:
         kind = rng.choice(["QUBO", "QUSO", "PUBO", "PUSO", "PCBO", "PCSO"])
         quad = kind in QUAD
@@ -76,7 +76,7 @@ def gen_(rng, i, tier):
         form = rng.choice(["bool", "spin", "ones"])
         vals = [1] * n if form == "ones" else [rng.choice([0, 1] if form == "bool" else [1, -1]) for _ in range(n)]
         return {"op": "convsol", "kind": kind, "terms": G.jraw(t), "vals": vals, "cont": rng.choice(["dict", "list", "tuple"]),
-                "flag": rng.choice([None, True, False])}
+                "flag": rng.choice([None, True, False]), "remap": gen_remap(rng)}
     if r < 0.90:
         which = rng.choice(["Q", "h", "J"])
         lab = rng.random() < 0.5          # the labelled QUBO / QUSO classes inherit Q, h, J
@@ -91,6 +91,29 @@ def gen_(rng, i, tier):
     n = rng.randint(1, 4)
     mat = [[G.coef(rng, zero_ok=True) if rng.random() < 0.7 else F(0) for _ in range(n)] for _ in range(n)]
     return {"op": "frommatrix", "mat": [[[v.numerator, v.denominator] for v in row] for row in mat], "array": rng.random() < 0.5}
+
+
+def gen_remap(rng):
+    """a user-chosen numbering: set_mapping / set_reverse_mapping with a permutation of 0..n-1 (n is known once the object exists,
+    so only the way of calling and a seed are fixed here)"""
+    if rng.random() < 0.65:
+        return None
+    return {"how": rng.choice(["map", "rmap"]), "seed": rng.randrange(10 ** 6)}
+
+
+def apply_remap(obj, remap):
+    """returns the mapping installed, as [[label code, index], ...] in the order the dictionary was handed over"""
+    import random
+    if not remap or not hasattr(obj, "set_mapping"):
+        return None
+    labs = list(obj.mapping)
+    perm = list(range(len(labs)))
+    random.Random(remap["seed"]).shuffle(perm)
+    if remap["how"] == "map":
+        obj.set_mapping({l: p for l, p in zip(labs, perm)})
+    else:
+        obj.set_reverse_mapping({p: l for l, p in zip(labs, perm)})
+    return [[C.enc(l), p] for l, p in zip(labs, perm)]
 
 
 def build(kind, jt):
@@ -121,6 +144,7 @@ def run_impl(case):
                 getattr(obj, METH[case["meth"]])()          # a first conversion, then in-place edits
                 for e in case["edits"]:
                     obj = c14.apply(obj, e)
+            installed = apply_remap(obj, case.get("remap"))
             snap = C.snapshot(obj)
             r = getattr(obj, METH[case["meth"]])()
             if C.snapshot(obj) != snap:
@@ -129,9 +153,12 @@ def run_impl(case):
             out["enum"] = mout(obj.to_enumerated())
             out["mapping"] = [[C.enc(k), v] for k, v in obj.mapping.items()]
             out["src_items"] = C.jterms(C.enc_terms(obj, sort_keys=False))
+            out["remap"] = installed
+            out["rmapping"] = [[k, C.enc(v)] for k, v in obj.reverse_mapping.items()]
             return out
         if op == "convsol":
             obj = build(case["kind"], case["terms"])
+            installed = apply_remap(obj, case.get("remap"))
             vals = case["vals"]
             sol = dict(enumerate(vals)) if case["cont"] == "dict" else list(vals) if case["cont"] == "list" else tuple(vals)
             snap = (C.snapshot(obj), C.snapshot(sol))
@@ -143,7 +170,7 @@ def run_impl(case):
             return {"sol": [[C.enc(k), int(v)] for k, v in r.items()],
                     "value": str(C.toF(obj.value(r))),
                     "enum_items": C.jterms(C.enc_terms(enum, sort_keys=False)),
-                    "enum_kind": type(enum).__name__}
+                    "enum_kind": type(enum).__name__, "remap": installed}
         if op == "export":
             w = case["which"]
             obj = build(("QUBO" if w == "Q" else "QUSO") + ("" if case.get("lab") else "Matrix"), case["terms"])
@@ -172,6 +199,12 @@ def tl(j):
     return C.termsl([(k, F(v[0], v[1])) for k, v in j])
 
 
+def mp_lit(installed):
+    if installed is None:
+        return "None"
+    return "(Some [%s])" % "; ".join("(%d%%nat, %d%%nat)" % (l, p) for l, p in installed)
+
+
 def literal(case, out):
     op = case["op"]
     if "error" in out:
@@ -188,12 +221,12 @@ def literal(case, out):
         cin = "Conv %d%%nat %s %s" % (case["fn"], C.optc(case["src"], lambda k: KIND[k]), tl(case["terms"]))
     elif op == "method":
         from props import c14
-        cin = "Method %s %s [%s] %d%%nat" % (KIND[case["kind"]], tl(case["terms"]),
-                                            "; ".join(c14.edit_lit(e) for e in case.get("edits", [])), case["meth"])
+        cin = "Method %s %s [%s] %s %d%%nat" % (KIND[case["kind"]], tl(case["terms"]),
+                                               "; ".join(c14.edit_lit(e) for e in case.get("edits", [])), mp_lit(out.get("remap")), case["meth"])
     elif op == "convsol":
         spin_model = case["kind"] in SPIN
         flag = spin_model if case["flag"] is None else case["flag"]
-        cin = "ConvSol %s %s [%s] %s" % (KIND[case["kind"]], tl(case["terms"]),
+        cin = "ConvSol %s %s %s [%s] %s" % (KIND[case["kind"]], tl(case["terms"]), mp_lit(out.get("remap")),
                                          "; ".join("(%d%%nat, (%d)%%Z)" % (i, v) for i, v in enumerate(case["vals"])), C.boolc(flag))
     elif op == "export":
         cin = "%s %s %s" % ({"Q": "ExportQ", "h": "ExportH", "J": "ExportJ"}[case["which"]], C.boolc(bool(case.get("lab"))), tl(case["terms"]))
@@ -244,6 +277,8 @@ def oracle(case, out):
             v.append("%s(%s) returned %s, documented type rule says %s" % (FN[fn], case["src"] or "dict", out["kind"], want))
     elif op == "method":
         mp = dict(out["mapping"])
+        if out.get("rmapping") is not None and {n_: l for l, n_ in out["mapping"]} != {n_: l for n_, l in out["rmapping"]}:
+            v.append("reverse_mapping %r is not the inverse of mapping %r" % (out["rmapping"], out["mapping"]))
         src, dst = out["src_items"], out["terms"]
         spin_src = case["kind"] in SPIN
         spin_dst = case["meth"] in (1, 3)
